@@ -165,7 +165,25 @@ def two_stages(methods, free_second):
     nlp.prove_equal(inst + "|stage:Stage.value:ensures:stage-t0", master.value(s2.ocp.t0), ca.MX(parts[1][1].t0))
 
 
-def generated_two_stages(i):
+def same_shape_stages(m1, m2):
+    """two stages with IDENTICAL shapes (states, controls, parameters, variables, quadratures, M, integrator) but different
+    dynamics and integrands: each stage must be propagated with its OWN right-hand side and integrand"""
+    from rockit import Ocp
+    master = Ocp()
+    mk = lambda meth, f, L, c_: Spec(method=meth, N=2, M=2, degree=2, T=("fixed", 1.0), t0=("fixed", 0.0), states=[2], controls=[1], params={"": [1]},
+                                     ode=E(f, None, ("x", "u", "p")), constraints=[Con(E(c_, 1, ("x", "u")), "le", 1.0)], objective=[("integral", E(L, 1, ("x", "u")))])
+    s1, s2 = mk(m1, "fA", "LA", "cA"), mk(m2, "fB", "LB", "cB")
+    s1.build(parent=master)
+    s2.build(parent=master)
+    master.solver("ipopt")
+    inst = "C12/same-shape-stages[%s+%s]" % (m1, m2)
+    master._transcribed
+    aug = master._augmented
+    parts = [(s1.bound_to(aug._stages[0]), aug._stages[0]._method), (s2.bound_to(aug._stages[1]), aug._stages[1]._method)]
+    union_check(inst, master, parts, lambda parts: [], ca.MX(0.0))
+
+
+def generated_two_stages(i, prop="C12"):
     """two generated specifications (contracts/randspec.py) as the two stages of one master OCP: the NLP is the disjoint
     union of what each stage's own oracle demands, the objective the sum"""
     from rockit import Ocp
@@ -175,7 +193,7 @@ def generated_two_stages(i):
     s1.build(parent=master)
     s2.build(parent=master)
     master.solver("ipopt")
-    inst = "C12/R%03d-two-generated-stages[%s+%s]" % (i, s1.method, s2.method)
+    inst = "%s/R%03d-two-generated-stages[%s+%s]" % (prop, i, s1.method, s2.method)
     master._transcribed
     aug = master._augmented
     parts = [(s1.bound_to(aug._stages[0]), aug._stages[0]._method), (s2.bound_to(aug._stages[1]), aug._stages[1]._method)]
@@ -251,9 +269,13 @@ def tasks(tier):
         for free in (False, True):
             inst = "C12/two-stages[%s+%s%s]" % (ms[0], ms[1], ",T2 free" if free else "")
             out.append(Task(inst, guarded(lambda ms=ms, free=free: two_stages(ms, free), inst), kind="bounded", bound=dict(stages=ms, free_T_second=free)))
+    for m1, m2 in (("MS", "MS"), ("SS", "SS"), ("MS", "SS"), ("DC", "DC")):
+        inst = "C12/same-shape-stages[%s+%s]" % (m1, m2)
+        out.append(Task(inst, guarded(lambda m1=m1, m2=m2: same_shape_stages(m1, m2), inst), kind="bounded", bound=dict(stages=[m1, m2], shapes="identical", dynamics="different"),
+                        replay=dict(harness="two_stage_probe", same_shape=[m1, m2])))
     for i in range(60 if tier == "thorough" else 20):
         inst = "C12/R%03d-two-generated-stages" % i
-        out.append(Task(inst, guarded(lambda i=i: generated_two_stages(i), inst), kind="bounded", bound=dict(generated=[2 * i, 2 * i + 1])))
+        out.append(Task(inst, guarded(lambda i=i: generated_two_stages(i), inst), kind="bounded", bound=dict(generated=[2 * i, 2 * i + 1]), replay=dict(harness="two_stage_probe", index=i)))
     for m in ("MS", "SS", "DC"):
         for ok, ode_t in (("mayer", False), ("sum", False), ("integral", False), ("integral-t", False), ("mayer", True)):
             inst = "C12/clones[%s,%s%s]" % (m, ok, ",time-varying-ode" if ode_t else "")
